@@ -115,11 +115,12 @@ func (w *textView) Handle(event term.Event) bool {
 func (w *textView) ScrollBy(delta int) {
 	w.MutateState(func(s *TextViewState) {
 		s.First += delta
-		if s.First < 0 {
-			s.First = 0
-		}
 		if s.First >= len(s.Lines) {
 			s.First = len(s.Lines) - 1
+		}
+		// Check the lower bound last: with no lines, the upper bound is -1.
+		if s.First < 0 {
+			s.First = 0
 		}
 	})
 }
